@@ -533,7 +533,7 @@ META = dict(
 
 # the constructors of the result objects (contracts/ctor_hvsr.py): the constructors find the peaks once with the default range when the object is complete
 import contracts.ctor_hvsr as _CTOR
-TASKS += [t for t in _CTOR.TASKS if "HvsrCurve.__init__" in t.label or "HvsrTraditional.__init__" in t.label]
+TASKS += [t for t in _CTOR.TASKS if "HvsrCurve.__init__" in t.label or "HvsrTraditional.__init__" in t.label or "from_hvsr_curves" in t.label]
 
 # the table of per-azimuth mean-curve peaks (contract in contracts/C11.py): entry a is azimuth a's own peak; a missing peak leaves as the per-azimuth object's exception
 import contracts.C11 as _C11
